@@ -600,6 +600,18 @@ pub fn replay(v: &Value) -> i32 {
         }
         "policy-json" => check_one_vs_array(&mut r, &w["json"], "replay"),
         "policy-reject" => must_refuse(&mut r, &w["json"], w["what"].as_str().unwrap_or("replay")),
+        // a policy value is re-created from the JSON text the encoder gave for it
+        "policy-roundtrip" | "policy-route" => match w["json"].as_str().and_then(|t| serde_json::from_str::<Policy>(t).ok()) {
+            Some(p) => check_policy_roundtrip(&mut r, &p),
+            None => harness_error("C20: this witness carries no JSON text from which the policy value can be re-created; re-run ./check C20 with the recorded seed"),
+        },
+        "empty-pattern" | "empty-pattern-in-set" => {
+            if PatternSet::new([""]).is_ok() || PatternSet::new(["a", ""]).is_ok() {
+                r.violated("C20/pattern/empty-accepted", json!({}));
+            } else {
+                r.held("replay");
+            }
+        }
         k => harness_error(&format!("C20: cannot replay witness kind {k:?}")),
     }
     if r.violation_count.is_empty() {
